@@ -185,8 +185,14 @@ def rules(ctx, prop, mod):
 def codecs(ctx, prop, mod):
     """codec clauses of C07 (remember cookie) and C14 (OAuth2 PID)"""
     maxuid = 4 if ctx.tier == 'quick' else 6
-    rows = tlc_enum(ctx, mod, 'Codecs', 'SPECIFICATION Spec\nCONSTANTS MaxUid = %d\n NonceLen = 2\nINVARIANTS RoundTrip Injective\n'
-                    'CHECK_DEADLOCK FALSE\n' % maxuid)
+    cfg = ('SPECIFICATION Spec\nCONSTANTS MaxUid = %d\n NonceLen = 2\n UidAlphabet = %s\nINVARIANTS RoundTrip %s\nCHECK_DEADLOCK FALSE\n')
+    # small alphabet: round trip and injectivity decided by TLC itself
+    rows = tlc_enum(ctx, mod, 'Codecs', cfg % (maxuid, '{"a", ";", ","}', 'Injective'))
+    if prop == 'C14':
+        # wider alphabet (characters an escaping scheme would introduce): TLC checks the round trip, the
+        # executor checks round trip and injectivity of the real functions over the whole enumeration
+        rows += [r for r in tlc_enum(ctx, mod, 'Codecs', cfg % (4 if ctx.tier == 'quick' else 5, '{"a", ";", "%", "3", "B", "2"}', ''))
+                 if r['kind'] == 'pid']
     want = 'pid' if prop == 'C14' else 'tok'
     rf = os.path.join(ctx.tmp, 'codec-rows.ndjson')
     with open(rf, 'w') as f:
